@@ -292,6 +292,24 @@ ITEMS = location_types() + budget_types() + error_types() + [
                 dict(before='return Err(Error::quoting_required(value.as_str()).with_location(location));', label='C06:only_plain_number_like_text_is_asked_to_be_quoted',
                      text='assert(rest0.len() > 0 && rest0[0] is Scalar && rest0[0]->Scalar_style is Plain && this.cfg.no_schema);')],
         canaries=['C06:a_string_target_gets_the_scalar_text_or_the_base64_payload', 'C06:null_forms_and_in_no_schema_mode_number_like_plain_text_are_refused_unless_tagged_str']),
+    dict(src=D, path=YD + 'fn deserialize_char', id='YamlDeserializer::deserialize_char',
+        impl_header="impl<'de, 'e> YamlDeserializer<'de, 'e>", props=['C06', 'C05', 'C01'],
+        pre_rewrites=[(r"fn deserialize_char<V: Visitor<'de>>\(mut self, visitor: V\) -> Result<V::Value, Self::Error>",
+                       'fn deserialize_char(mut self, visitor: Vis) -> Result<VisVal, Error>', 1, 'R9'),
+                      (r'let mut it = s\.as_ref\(\)\.chars\(\);\s*match \(it\.next\(\), it\.next\(\)\) \{', 'match cow_first_two_chars(&s) {', 1, 'R8')],
+        rewrites=[(r'tag == &SfTag::(\w+)', r'*tag == SfTag::\1', None, 'R15'), (r'tag != &SfTag::(\w+)', r'*tag != SfTag::\1', None, 'R15'),
+                  (r'scalar_is_nullish\(value, style\)', 'scalar_is_nullish(value.as_ref(), style)', None, 'R15'),
+                  (r'maybe_not_string\(value, style\)', 'maybe_not_string(value.as_ref(), style)', None, 'R15'),
+                  (r'Error::quoting_required\(&value\)', 'Error::quoting_required(value.as_str())', None, 'R15')],
+        ensures=[
+            ('C06:a_char_target_gets_the_single_character_of_the_scalar_and_nothing_else_is_a_char', '''({ let rest0 = old(self.ev).rest();
+                r is Ok ==> rest0.len() > 0 && rest0[0] is Scalar && rest0[0]->Scalar_value@.len() == 1 && r == vis_char(visitor, rest0[0]->Scalar_value@[0]) })'''),
+            ('C06:null_forms_and_in_no_schema_mode_number_like_plain_text_are_refused_unless_tagged_str', '''({ let rest0 = old(self.ev).rest();
+                r is Ok && rest0.len() > 0 && rest0[0] is Scalar && !(rest0[0]->Scalar_tag is String) ==>
+                    !(rest0[0]->Scalar_tag is Null) && !unit_scalar(rest0[0])
+                    && !(self.cfg.no_schema && rest0[0]->Scalar_style is Plain && sp_looks_non_string(encode_utf8(rest0[0]->Scalar_value@))) })'''),
+        ],
+        canaries=['C06:a_char_target_gets_the_single_character_of_the_scalar_and_nothing_else_is_a_char']),
     dict(src=D, path=YD + 'fn deserialize_f64', id='YamlDeserializer::deserialize_f64',
         impl_header="impl<'de, 'e> YamlDeserializer<'de, 'e>", props=['C06', 'C19', 'C05', 'C01'],
         pre_rewrites=[(r"fn deserialize_f64<V: Visitor<'de>>\(mut self, visitor: V\) -> Result<V::Value, Self::Error>",
